@@ -10,7 +10,7 @@ from . import base
 
 SELECT = {
     'C01': lambda f: f['property'] == 'C01',
-    'C03': lambda f: f['oracle'] in ('H1', 'H2', 'C03.model', 'C03.stored'),
+    'C03': lambda f: f['oracle'] in ('H1', 'H2', 'C03.model', 'C03.stored', 'C03.input'),
     'C04': lambda f: f['oracle'] in ('C04.model', 'C04.history'),
     'C12': lambda f: f['oracle'] in ('C12.type', 'C12.stored', 'H1'),
     'C05': lambda f: f['oracle'] in ('C05.model', 'P1'),
@@ -208,6 +208,13 @@ def evaluate(prop, case, acc=None):
     except (core.RunTimeout, core.BudgetExceeded) as e:
         if prop == 'C06':
             return [simrun.F('C06', 'C06.term', 'no-termination', f'shipped session did not finish: {type(e).__name__} {e}')]
+        if prop == 'C03' and getattr(e, 'rec', None) is not None:
+            # a session that was cut off: what its lines had received until then is judged all the same
+            per = shipped.Persona(case['persona'])
+            fs = shipped.input_read_findings(case['persona'], e.rec.events, per.text)
+            fs += [simrun.F('C03', c, c, m_) for c, m_ in e.monitor.violations if c in ('H1', 'H2')]
+            if fs:
+                return [dict(f, msg=f['msg'] + f' (session cut off: {e})') for f in fs]
         raise
     if run.outcome == 'unknown':
         return []
